@@ -15,7 +15,7 @@ TRUSTED = PC.TRUSTED
 ASSUMPTIONS = PC.ASSUMPTIONS
 EXHAUSTIVE = {}
 SPEC_KINDS = ("isrun", "eq", "hasheq")
-N = {"quick": 1100, "thorough": 30000, "search": 2500}
+N = {"quick": 1100, "thorough": 14000, "search": 2500}
 
 
 def gen_cases(rng, tier):
